@@ -502,14 +502,9 @@ func (parser *Parser) ParseExpression(depth int) (res Sexp, err error) {
 	case TokenSymbol:
 		if tok.str == "-" || tok.str == "+" {
 			// are we -Inf ?
-			var tok2 Token
-			if depth == 0 {
-				// at top level a lone + or - is a complete text:
-				// look at what is there, but do not ask for more input.
-				tok2, err = lexer.PeekNextToken(0)
-			} else {
-				tok2, err = parser.ParserPeekNextToken(0)
-			}
+			// (outside any open form a lone + or - is a complete text:
+			// ParserPeekNextToken does not ask for more input there.)
+			tok2, err := parser.ParserPeekNextToken(0)
 			if err != nil {
 				return SexpEnd, err
 			}
@@ -574,7 +569,10 @@ func (parser *Parser) flushAtEnd() (flushed bool, err error) {
 // applies to is available, asking for more input if the text so far
 // ends right after the prefix.
 func (parser *Parser) needOperand() error {
-	_, err := parser.ParserPeekNextToken(0)
+	tok, err := parser.ParserPeekNextToken(0)
+	if err == nil && tok.typ == TokenEnd {
+		return fmt.Errorf("quote, syntax-quote or unquote without an expression after it")
+	}
 	return err
 }
 
@@ -820,6 +818,11 @@ func (parser *Parser) ParserPeekNextToken(extra int) (tok Token, err error) {
 			}
 			if flushed {
 				continue
+			}
+			if parser.openBrackets == 0 {
+				// Outside any open form the text so far is complete:
+				// report the end instead of asking for more input.
+				return
 			}
 			//instead of return SexpEnd, UnexpectedEnd
 			// we ask for more, and then loop
